@@ -55,7 +55,8 @@ func (s jsonSet) hashCode(metadata []Metadata) [8]byte {
 		hc := v.hashCode(metadata)
 		sMap[hc] = true
 	}
-	hashes := make(hashCodes, 0, len(sMap))
+	hashes := make(hashCodes, 0, len(sMap)+1)
+	hashes = append(hashes, [8]byte{0x9A, 0x3E, 0x51, 0xC7, 0x2D, 0x84, 0xF0, 0x6B}) // random bytes
 	for hc := range sMap {
 		hashes = append(hashes, hc)
 	}
